@@ -17,6 +17,14 @@ Definition rec_ok (tol : float) (bs : list (branch (K:=FC))) (rp : list nat * fl
   f_close tol (fst (rec_mass FOps bs (fst rp))) (snd rp).
 Definition dist_ok (tol : float) (bs : list (branch (K:=FC))) (l : list (list nat * float)) : bool :=
   forallb (rec_ok tol bs) l && f_close tol (fst (total_mass FOps bs)) 1.
+(* the same through the density semantics (channels do not branch): mass of a branch = weight * trace *)
+Definition dtrace (n : nat) (rho : list FC) : FC := ksum FOps (map (fun k => nth (k * n + k) rho (k0 FOps)) (seq 0 n)).
+Definition dmass (n : nat) (b : dbranch (K:=FC)) : FC := kmul FOps (dw b) (dtrace n (drho b)).
+Definition drec_mass (n : nat) (bs : list (dbranch (K:=FC))) (r : list nat) : FC :=
+  ksum FOps (map (dmass n) (filter (fun b => list_eqb_nat (flat_rec (drec b)) r) bs)).
+Definition ddist_ok (tol : float) (n : nat) (bs : list (dbranch (K:=FC))) (l : list (list nat * float)) : bool :=
+  forallb (fun rp => f_close tol (fst (drec_mass n bs (fst rp))) (snd rp)) l
+  && f_close tol (fst (ksum FOps (map (dmass n) bs))) 1.
 '''
 
 
@@ -48,6 +56,7 @@ def run(ctx):
     for i in range(40 * n):
         c, qs = mcircuits.pauli_measure_circuit(cirq, ctx.rng)
         case_checks(ctx, cirq, c, qs, 'pauli', checks)
+    noisy_terminal_checks(ctx, cirq, checks, 24 * n)
     sample_stream(ctx, cirq, 25 * n)
     evaluate(ctx, checks)
 
@@ -174,6 +183,56 @@ def repetition_checks(ctx, cirq, c, qs, mode, checks):
         for which, m in (('first', m1), ('second', m2)):
             checks.append((entry, f'dist_ok {TOL} {model} {dist_literal(m)}',
                            f'{entry}: the {which} of two repetitions does not have the Born-rule distribution on {desc} (got {sorted(m.items())})', rp))
+
+
+def noisy_terminal_checks(ctx, cirq, checks, n):
+    """run() of a simulator built with a per-qubit noise model on circuits ending in one joint measurement (own moment): the records
+    have the distribution of the circuit the noise model produces - the noise the model adds after the measurement must not leak
+    into the sampled outcome (terminal-measurement fast path)."""
+    rng = ctx.rng
+    for i in range(n):
+        k = rng.randint(2, 3)
+        qs = cirq.LineQubit.range(k)
+        # every qubit is touched in the first moment: the simulators hand the noise model the qubits of the measurement-free
+        # prefix only (recorded defect of C09, split-before-noise), which must not be what this stream trips over
+        c = cirq.Circuit(cirq.Moment(rng.choice([cirq.H, cirq.X, cirq.Y ** 0.5, cirq.I])(q) for q in qs))
+        for _ in range(rng.randint(0, 3)):
+            if rng.random() < 0.4:
+                a, b = rng.sample(range(k), 2)
+                c.append(rng.choice([cirq.CNOT, cirq.CZ])(qs[a], qs[b]))
+            else:
+                c.append(rng.choice([cirq.H, cirq.X, cirq.Y ** 0.5, cirq.rx(0.7)])(qs[rng.randrange(k)]))
+        ws = rng.sample(range(k), rng.randint(1, k))
+        c.append(cirq.Moment(cirq.measure(*[qs[w] for w in ws], key='m', invert_mask=tuple(rng.random() < 0.3 for _ in ws))))
+        noise_gate = [cirq.X, cirq.bit_flip(0.2), cirq.depolarize(0.1), cirq.amplitude_damp(0.3)][i % 4]
+        nm = cirq.ConstantQubitNoiseModel(noise_gate)
+        try:
+            mops, meas, _ = opsem.circuit_to_mops(cirq, c.with_noise(nm), qs)
+        except opsem.Unsupported:
+            continue
+        shape = gates.nlist([2] * k)
+        model = f'(dexec FOps {shape} {mops} {gates.fvec(np.eye(2 ** k)[0])})'
+        desc = str(c).replace('\n', ' | ')[:300]
+        for entry, Sim in (('Simulator.run', cirq.Simulator), ('DensityMatrixSimulator.run', cirq.DensityMatrixSimulator)):
+            if Sim is cirq.Simulator and noise_gate is not cirq.X and not (k == 2 and len(c) <= 3 and noise_gate == cirq.bit_flip(0.2)):
+                continue        # trajectories branch at every noise operation: only unitary noise, or two short bit-flip wires
+            try:
+                br = enumerate_runs(lambda s: opsem.flat_record(Sim(noise=nm, seed=s).run(c, repetitions=1).records, meas))
+            except BranchExplosion:
+                continue
+            except Exception as e:
+                import traceback
+                ctx.violation(f'{entry}:noise:raises:{type(e).__name__}', f'{entry} with noise {noise_gate!r} raised {type(e).__name__}: {e} on {desc}',
+                              dict(kind='mcircuit', entry=entry, circuit=repr(c), noise=repr(noise_gate), error=traceback.format_exc()[-1200:]))
+                continue
+            dist = {}
+            for p, r, _ in br:
+                dist[tuple(r)] = dist.get(tuple(r), 0.0) + p
+            ctx.count(entry + '[noise, terminal joint measurement]', [desc, entry, repr(noise_gate)], True,
+                      sample=dict(circuit=desc, entry=entry, noise=repr(noise_gate), distribution=sorted(dist.items())))
+            checks.append((entry, f'ddist_ok {TOL} {2 ** k}%nat {model} {dist_literal(dist)}',
+                           f'{entry}(noise={noise_gate!r}): the records of a terminal joint measurement do not have the distribution of the circuit the noise model produces on {desc} (got {sorted(dist.items())})',
+                           dict(signature=f'{entry}:noise-terminal', entry=entry, circuit=repr(c), noise=repr(noise_gate), mode='noise-terminal')))
 
 
 def features(cirq, c):
